@@ -66,6 +66,19 @@ def _me32(x):
     return fl.me(float(x))
 
 
+HMASK = 4611686018427387903   # 2^62 - 1
+
+
+def _hash_floats(ys):
+    """order-sensitive checksum of canonical (m, e) pairs; same as Run/C20.v hSF"""
+    h = 0
+    for v in ys:
+        m, e = fl.me(float(v))
+        h = (h * 1000003 + m) & HMASK
+        h = (h * 1000003 + e) & HMASK
+    return h
+
+
 def _canon_me(p):
     m, e = p
     if e == 99999:
@@ -185,7 +198,7 @@ def corpus():
         out.append({'op': 'rep_ramp', 'input': [0, 1000, rate, T(-0.5)]})                           # negative duration
         out.append({'op': 'rep_ramp', 'input': [0, 1000, rate, T(-1e-9)]})
         out.append({'op': 'rep_ramp', 'input': [0, MAXLEN, rate, T(2.5 * MAXLEN / rate)]})
-        out.append({'op': 'rep_ramp', 'input': [0, 3, rate, T(1.0)]})
+        out.append({'op': 'rep_ramp', 'input': [0, 3, rate, T(100 / rate)]})
     out.append({'op': 'rep_ramp', 'input': [0, MAXLEN, 8000, T(5e-324)]})                           # quotient underflows to 0
     out.append({'op': 'rep_list', 'input': [[5, -3, 9], 8000, T(0.001)]})
     out.append({'op': 'crop_list', 'input': [[5, -3, 9, 4, 4, 0], 8000, T(1 / 8000), T(3 / 8000)]})
@@ -247,14 +260,17 @@ def cases(rng, tier, n=None):
             d = rng.choice([0.0, 5e-324, 1e-300, 1e-12])
         else:
             d = -_rand_time(rng, rate, ln)
-        if ln and d * rate > cap:
-            d = cap / rate
+        lim = min(cap, 40 * ln)            # at most 40 copies: the (compressed) output stays small
+        if ln and d * rate > lim:
+            d = _ulps(lim / rate, rng.choice([0, 1, -1]))
         out.append({'op': 'rep_ramp', 'input': [rng.choice([0, 0, 1, -5000]), ln, rate, T(d)]})
     for _ in range(150 * mul):
         rate = rng.choice(RATES)
         ln = rng.randint(0, 9)
         xs = [rng.randint(-32768, 32767) for _ in range(ln)]
         d = _rand_time(rng, rate, 4 * max(ln, 1))
+        if d * rate > 64:
+            d = _ulps(64 / rate, rng.choice([0, 1, -1]))
         out.append({'op': 'rep_list', 'input': [xs, rate, T(d)]})
     for _ in range(200 * mul):
         la, lb = rng.randint(0, 10), rng.randint(0, 10)
@@ -265,7 +281,7 @@ def cases(rng, tier, n=None):
         out.append({'op': 'stereo', 'input': [dl, dr, [rng.randint(-99, 99) for _ in range(la)],
                                               [rng.randint(-99, 99) for _ in range(lb)]]})
     for _ in range(8 * mul):
-        k = rng.choice([1, 10, 300, 1500])
+        k = rng.choice([1, 10, 100, 300])
         out.append({'op': 'wav', 'input': [[rng.randint(-32768, 32767) for _ in range(k)], rng.choice(RATES)]})
     for _ in range(300 * mul):     # real repeat arithmetic at sizes that cannot be allocated (spy)
         rate = rng.choice(RATES)
@@ -363,7 +379,7 @@ def impl(case):
         assert y.dtype == np.float32, y.dtype
         z = aio.float_samples_to_int16(y)
         assert z.dtype == np.int16, z.dtype
-        return [_me32(v) + [int(w)] for v, w in zip(y, z)]
+        return [_hash_floats(y), runs(z)]
     if op == 'f32_i16':
         y = np.array([_F(p) for p in a[0]], dtype=np.float64).astype(np.float32)
         assert all(float(v) == _F(p) for v, p in zip(y, a[0]))
@@ -448,7 +464,7 @@ def _optz(o):
 def model_output(case, m):
     op = case['op']
     if op == 'pcm':
-        return [_canon_me(p) + [_optz(b)] for p, b in m]
+        return m
     if op in ('f32_i16', 'f64_i16'):
         return [_optz(o) for o in m]
     if op == 'wav':
